@@ -165,7 +165,12 @@ class RungeKuttaIntegrator(TableauIntegrator, abc.ABC):
         self.initial_time = D.ar_numpy.copy(initial_time)
         self.initial_rhs = None
         
-        if self.final_rhs is not None:
+        # the end slope cached by the previous call is the start slope of this step only if this step starts where that one
+        # ended (not after a step was rolled back, rejected by the caller or the integrator is reused elsewhere)
+        cached_slope_valid = self.final_rhs is not None and self.final_time is not None and \
+            bool(self.final_time == initial_time) and bool(D.ar_numpy.all(self.final_state == initial_state))
+        self.final_time = None
+        if cached_slope_valid:
             self.initial_rhs = self.final_rhs
             if self.is_fsal:
                 self.stage_values[...,0] = self.final_rhs
@@ -232,6 +237,8 @@ class RungeKuttaIntegrator(TableauIntegrator, abc.ABC):
                     )
         
         self._requires_high_precision = False
+        self.final_time = initial_time + self.dTime
+        self.final_state = initial_state + self.dState
         
         return timestep, (self.dTime, self.dState)
         
